@@ -7,7 +7,7 @@ SPEC = {
                  'explicit state cell (symbolic 5-field legacy state), of layer.ncomp_from_gmm with a symbolic seed against the '
                  'recording mixture stub, and of the whole chain with an access monitor on the global generator; 2-run history independence',
     'bounds': {'quick': 'any initial generator state (key, position, has_gauss, cached gaussian symbolic), any temporary seed, body '
-                        'that draws and then returns or raises; any random_seed int >= 0; whole chain on <= 2 hits; 30-hit mixture group',
+                        'that draws and then returns or raises; any random_seed int >= 0; two consecutive calls with the concrete seeds 0 and 42 (generator objects modelled as seed + fits served); whole chain on <= 2 hits; 30-hit mixture group',
                'thorough': 'as quick, chain on 2 hits of 2 ceilometers, history 2-run on 2-hit chunks'},
     'outside': 'bit-identity across processes, PYTHONHASHSEED values, thread counts and library builds: a property of the numpy / '
                'scikit-learn binaries that cannot be encoded; the determinism of the three numerical procedures is assumed (stubs are memoised)',
@@ -114,21 +114,36 @@ def h_gmm_twice(E, seed):
     from ampycloud import layer as L
     from models import stubs
     N = np()
-    del N.random.log[:]
+    if shim():
+        del N.random.log[:]
+    else:
+        st0 = N.random.get_state()
     stubs.OPTIONS['gmm'] = pipeline.gmm_stub
+    rec = []
+    if not shim() and getattr(L.GaussianMixture, '__module__', '').startswith('sklearn'):
+        # replay with the real scikit-learn: note the generator state each real fit is handed
+        class Recording(L.GaussianMixture):
+            def fit(self, X, y=None):
+                rs = self.random_state
+                rec.append(repr((hash(rs.get_state()[1].tobytes()), int(rs.get_state()[2]))) if hasattr(rs, 'get_state') else repr(rs))
+                return super().fit(X, y)
+        real_cls, L.GaussianMixture = L.GaussianMixture, Recording
     out, seen = [], []
     for run in range(2):
-        n0 = len(stubs.CALLS)
+        n0, r0 = len(stubs.CALLS), len(rec)
         with WarningLog():
             out.append(outcome(L.ncomp_from_gmm, N.array(pipeline.FILL_H), ncomp_max=2, min_sep=0, random_seed=seed, rescale_0_to_x=100))
         inits = [c[3] for c in stubs.CALLS[n0:] if c[0] == 'gmm_init']
         fits = [c[2] for c in stubs.CALLS[n0:] if c[0] == 'gmm_fit_rs']
-        seen.append([repr(f) if f is not None else repr(i) for i, f in zip(inits, fits)])
+        seen.append([repr(f) if f is not None else repr(i) for i, f in zip(inits, fits)] + rec[r0:])
+    if 'real_cls' in locals():
+        L.GaussianMixture = real_cls
     E.cover('mixture engaged', len(seen[0]) >= 2)
     (k1, r1), (k2, r2) = out
     cl = [('both calls return', k1 == 'ok' and k2 == 'ok'),
           ('each mixture model of the second call is given the generator state its counterpart of the first call was given', seen[0] == seen[1]),
-          ('no access to the global generator', list(N.random.log) == [])]
+          ('no access to the global generator', list(N.random.log) == [] if shim() else
+           all((a == b).all() if hasattr(a, 'all') else a == b for a, b in zip(st0, N.random.get_state())))]
     if k1 == 'ok' and k2 == 'ok':
         cl.append(('same number of components and same labels', And([same_value(r1[0], r2[0])] + [same_value(a, b) for a, b in zip(list(r1[1]), list(r2[1]))]
                                                                    + [len(list(r1[1])) == len(list(r2[1]))])))
